@@ -275,6 +275,10 @@ def step (st : St) (line : String) : St × String :=
       | .converged _ _ it _ => (st, s!"converged {it}")
       | .failed it => (st, s!"failed {it}")
       | .outOfFuel => (st, "fuel")
+    | ["onsite"], [e0s, e1s, dirs, qs, sites] =>
+      -- one Cartesian component of Mesh.get_quantity_on_site at the listed sites
+      let (e0, e1, d, q) := (nats e0s, nats e1s, floats dirs, floats qs)
+      (st, " ".intercalate ((toks sites).map (fun t => b (onSite e0.size (nfn e0) (nfn e1) (fn d) (fn q) (nat t)))))
     | ["bsz"], [pref, dx, dy, jx, jy] =>
       let p := floats pref
       (st, b (bsZ p.size (fn p) (fn (floats dx)) (fn (floats dy)) (fn (floats jx)) (fn (floats jy))))
